@@ -104,6 +104,29 @@ CLAIMED = {
    note="Trusted: Duration::from_parts(c, n<century) / to_parts() (cross-checked by C02), the i128 model (a dozen lines), rustc overflow checks turning wraps into observable panics. Known finding D1 (total_nanoseconds below -1 century, pinned by the repo's own test) is matched by an exact defect model.",
    ref="DESIGN.md §4 C01"),
 }
+# sentences appended to the texts above: what the three seeding rounds added (DESIGN.md §6.2)
+EXTRA = {
+ "C01": " Every Duration read through the abstraction function is also checked for canonical form (all checks inherit this monitor).",
+ "C02": " compose: sign over {i8::MIN,-1,0,1,i8::MAX} in the full product and a far-range family (one field at k centuries +-1 unit up to 32768, or u64::MAX).",
+ "C04": " Float seconds: exact-integer values up to 1e13 s of both signs (beyond the i64 nanosecond range).",
+ "C06": " Providers: prefix files, five layout variants and three files announcing future leap seconds (2035, 2040 beyond 2^32 s, 2100, 3000). A conversion that returns the right count in a denormalised Duration is a violation.",
+ "C07": " ET<->TDB directly on the same counts (c07.cross, 2 x 30 ns at the instant's own TAI) and the to_jde_et/tdb_duration accessors (exactly the duration + JD 2451545.0 d).",
+ "C09": " Alternate formatters and to_gregorian_str(other scale) from all nine source scales must equal Display / to_gregorian_str of the converted epoch.",
+ "C10": " Deserialize is driven through from_str, to_value/from_value, from_reader and escaped JSON text.",
+ "C11": " Deserialize is driven through from_str, to_value/from_value, from_reader and escaped JSON text.",
+ "C12": " c12.far: same-scale pairs near both ends of the representable range in every scale.",
+ "C13": " Alphabets carry one multi-byte character per predicate class (white space, non-ASCII digits, length-changing case mappings); c13.year_scan: geometric lattice of years up to 5e9 (ratio 1.0005 / 1.0001).",
+ "C14": " A zero step on an epoch must give the reference epoch of its scale.",
+ "C15": " c15.medium: five non-round steps x every item count 1..512 (2048) x spans -1..+3 ns round a whole number of steps; every series is driven again by collect(), a for loop and by_ref().take(j)+rest; c15.huge: series of 2^53..2^80 items (first items and take(3).collect()).",
+ "C16": " The epoch part runs on epochs of all nine scales (own-scale civil date-times; don't-care where the TAI and own-scale dates differ).",
+ "C17": " The origin of every view (JD 0, MJD 0, UNIX 0, J2000, 1900) is a lattice anchor; {:p} must print to_unix_seconds().",
+ "C18": " compose_f64: sign over {i8::MIN,-1,0,1,i8::MAX}.",
+ "C19": " Sub-second digit-group lattice {000,001,250,999}^3 through the nine constants and %f; to_isoformat; %w accepts either weekday reading.",
+ "C20": " Day-of-year sweep includes every leap-second year and the next, day fractions up to 1-1e-9, and duration_in_year read directly.",
+}
+for _k, _v in EXTRA.items():
+    CLAIMED[_k]["text"] += _v
+
 
 ALL = [f"C{i:02d}" for i in range(1, 21)]
 
